@@ -182,10 +182,12 @@ func c20Failing(m *kmip.RequestMessage, raw []byte, e *c20Encoders) string {
 	}
 	// an object whose Go type has no tag cannot be encoded: not the first time, and not the second time either
 	// (whatever an earlier message with a proper object left behind)
-	okObj := &payloads.GetResponsePayload{ObjectType: kmip.ObjectTypeSecretData, UniqueIdentifier: "id", Object: &kmip.SecretData{SecretDataType: kmip.SecretDataTypePassword,
-		KeyBlock: kmip.KeyBlock{KeyFormatType: kmip.KeyFormatTypeOpaque}}}
-	e.encode("binary", okObj)
-	bad := &payloads.GetResponsePayload{ObjectType: kmip.ObjectTypeSecretData, UniqueIdentifier: "id", Object: &c20UntaggedObject{}}
+	getResp := func(obj kmip.Object) *kmip.ResponseMessage {
+		return &kmip.ResponseMessage{Header: kmip.ResponseHeader{ProtocolVersion: kmip.V1_4, BatchCount: 1}, BatchItem: []kmip.ResponseBatchItem{{Operation: kmip.OperationGet,
+			ResponsePayload: &payloads.GetResponsePayload{ObjectType: kmip.ObjectTypeSecretData, UniqueIdentifier: "id", Object: obj}}}}
+	}
+	e.encode("binary", getResp(&kmip.SecretData{SecretDataType: kmip.SecretDataTypePassword, KeyBlock: kmip.KeyBlock{KeyFormatType: kmip.KeyFormatTypeOpaque}}))
+	bad := getResp(&c20UntaggedObject{})
 	out += "untagged-object="
 	for i := 0; i < 2; i++ {
 		func() {
@@ -303,6 +305,9 @@ func c20Run(p c20Plan, dir string) (sig string, err error) {
 	for i, d := range ref {
 		if strings.HasPrefix(d, "binary-differs-from-reference:") {
 			return "result-depends-on-history", fmt.Errorf("job %d (%s): the sequential child (jobs in list order, one process) encodes %s, the reference encoder predicts %s for this value alone", i, p.Jobs[i].Kind, d[30:], p.Jobs[i].Expect)
+		}
+		if p.Jobs[i].Kind == "failing" && !strings.HasPrefix(d, "failing:") {
+			return "harness-failing-job", fmt.Errorf("job %d: the failing-calls job did not run to its end: %s", i, d)
 		}
 		if strings.HasPrefix(d, "failing:") && !strings.Contains(d, "untagged-object=panic,panic,;") {
 			return "result-depends-on-history", fmt.Errorf("job %d (failing calls): encoding an object whose type has no tag must fail every time it is tried, the sequential child reports %s", i, d)
